@@ -57,7 +57,8 @@ SGX_TARGETS = ["quote", "quote-sig", "att-key", "qe-report", "qe-sig", "auth-dat
                "signer-message", "pubkey", "root"]
 REQUIRED_LABELS = {t: ["plat:ledger", "plat:sgx", "unaltered:ok", "altered:refused", "legacy",
                        "refresh",
-                       "pages>=2", "ud-form:0x", "ud-form:plain", "ud-leading-zero", "in-place"] + ["alter:" + x for x in LEDGER_TARGETS + SGX_TARGETS]
+                       "pages>=2", "ud-form:0x", "ud-form:plain", "ud-leading-zero", "in-place",
+                       "tmpdir:other-fs|tmpdir:other-fs-unavailable"] + ["alter:" + x for x in LEDGER_TARGETS + SGX_TARGETS]
                    for t in ("quick", "thorough")}
 h32 = st.binary(min_size=32, max_size=32)
 # 32-byte values, with those that start with zero digits / bytes well represented
@@ -89,6 +90,14 @@ def cases(draw, tier):
          "auth": draw(st.one_of(st.binary(min_size=0, max_size=40), st.just(b""),
                                 st.binary(min_size=0, max_size=1000))),
          "third_cert": draw(st.booleans()), "alter": None,
+         # validity periods of the (genuine, unexpired) certificates of the SGX chain
+         "cert_windows": draw(st.sampled_from([None, None, {"platform_ca": "no-expiry"},
+                                               {"quoting_enclave": "no-expiry"},
+                                               {"sgx_root": "no-expiry"},
+                                               {"quoting_enclave": "ends-in-1h",
+                                                "platform_ca": "started-1h-ago"}])),
+         # where the system keeps temporary files: on the output's file system, or another
+         "tmpdir": draw(st.sampled_from(["same", "same", "other-fs"])),
          # does the attestation command write to the very file it was given as input?
          "in_place": draw(st.sampled_from([None, None, "first", "refresh", "both"])),
          "refresh": None}
@@ -161,7 +170,47 @@ def reload_equal(path, what):
     return raw
 
 
+def _other_fs_dir(ref):
+    dev = os.stat(ref).st_dev
+    for cand in ("/dev/shm", "/run/lock", "/var/tmp", "/run"):
+        try:
+            if os.path.isdir(cand) and os.access(cand, os.W_OK) and os.stat(cand).st_dev != dev:
+                return cand
+        except OSError:
+            pass
+    return None
+
+
 def run_case(c):
+    """(wrapper) the case proper runs with the system's temporary directory where the case says"""
+    d = workdir()
+    other = _other_fs_dir(d) if c.get("tmpdir") == "other-fs" else None
+    if other is None:
+        out = _run_case(c)
+        if c.get("tmpdir") == "other-fs":
+            out = Out(list(out.labels) + ["tmpdir:other-fs-unavailable"], out.nontrivial)
+        return out
+    saved_env, saved_td = os.environ.get("TMPDIR"), tempfile.tempdir
+    os.environ["TMPDIR"] = other
+    tempfile.tempdir = None
+    before = set(os.listdir(other))
+    try:
+        out = _run_case(c)
+        return Out(list(out.labels) + ["tmpdir:other-fs"], out.nontrivial)
+    finally:
+        if saved_env is None:
+            os.environ.pop("TMPDIR", None)
+        else:
+            os.environ["TMPDIR"] = saved_env
+        tempfile.tempdir = saved_td
+        for f in set(os.listdir(other)) - before:       # whatever the code left behind
+            try:
+                os.unlink(os.path.join(other, f))
+            except OSError:
+                pass
+
+
+def _run_case(c):
     plat = c["platform"]
     alter = c["alter"]
     labels = ["plat:" + plat, "ud-form:" + c.get("ud_form", "plain")] + \
